@@ -470,7 +470,8 @@ def rule_flag_writers(ctx: RuleContext, p: Program, rid: str) -> None:
                     n += 1
                     val = a.value if isinstance(a, (ast.Assign, ast.AnnAssign)) else None
                     truth = val.value if isinstance(val, ast.Constant) and isinstance(val.value, bool) else None
-                    own = fn.cls is not None and fn.cls.name == 'BlockComment' and self_attr(t) is not None
+                    # the token itself: its constructor, the setter of the flag, its clone -- not any other method it may grow
+                    own = fn.cls is not None and fn.cls.name == 'BlockComment' and self_attr(t) is not None and fn.name in ('__init__', 'claimed', '_clone')
                     name = fn.name
                     claim_path = name in ('_claim_comment', 'claim') or (name.startswith('claim') and 'unclaim' not in name)
                     unclaim_path = 'unclaim' in name
